@@ -37,6 +37,10 @@ pub(super) fn percent_encode(s: &str) -> PercentEncode<'_> {
     utf8_percent_encode(s, PERCENT_ENCODE_SET)
 }
 
+#[cfg(kani)]
+#[path = "/verif/harness/vcf/writer_info_string.rs"]
+mod verif_kani;
+
 #[cfg(test)]
 mod tests {
     use super::*;
